@@ -85,9 +85,9 @@ CHECKS.update({
 })
 CHECKS.update({
  'C20': ('ordermc', 'model_checking',
-         'exhaustive enumeration of sync ranges, choice-point DFS over peer picks x fault patterns of the real state syncer, and explicit-state BFS over the raft node\'s real apply path for every short committed log',
-         'A: calcRangeHeight for all begin,end in 0..28 (thorough 0..40) x fetch 1..8 must partition [begin,end] in ascending ranges. B: real SyncCFTBlocks for every pattern of <=2 injected fetch failures and every sequence of (seamed) random peer picks must emit each height once, ascending. C: the real etcdraft.Node apply path (entriesToApply, publishEntries, mint, reportState, persisted applied index, real mempool) under all interleavings of {raft hands over the next 1/2/all entries or re-delivers from index 1, executor reports, crash+restart at the executor\'s durable height} for every committed log of length 4 (thorough 5) over entry heights {empty,2,3,4}: delivered heights consecutive, an executed height never delivered again, no unexecuted entry skipped.',
-         'PARTIAL: the etcd raft library (which entries are committed, in which order, on which replica) is trusted; leader election, message loss/duplication/reordering between replicas, snapshots/compaction and the solo orderer\'s goroutine pipeline are not explored (building the event-by-event 3-replica harness was not completed); batch contents/sequence numbers on the proposing side are covered by C18', '5 C20'),
+         'deviation-bounded exhaustive DFS over the scheduler choices of a 3-replica cluster of real etcdraft nodes and of the solo node stepped one event at a time (select-case bodies extracted from the current source, raft state machine stepped synchronously, harness network/executor, real WAL); plus exhaustive enumeration of sync ranges, choice-point DFS over the real state syncer, and explicit-state BFS over the raft node\'s apply path for every short committed log',
+         'D: three real etcdraft.Node replicas: default schedule + every single deviation (quick; about 12000 executions) and every pair of fault-class deviations until the deadline (thorough), a deviation being another enabled internal event (ready / propose / deliver any pending message / execute / report / restart), dropping or duplicating a message, crashing a replica with or without its in-flight messages, a spontaneous election, a tick; 4 configurations (batch size 1, pipelined submissions, batch size 2 with batch timeout, snapshot_count 2 with compaction, MsgSnap, recoverFromSnapshot and block fetches); oracles: delivered height = last executed + 1 on every replica across restarts, identical block content on all replicas, a transaction in at most one block, no replica death, at quiescence every committed batch delivered. E: the solo orderer likewise. A: calcRangeHeight for all begin,end in 0..28 (thorough 0..40) x fetch 1..8. B: real SyncCFTBlocks for every pattern of <=2 fetch failures x every peer pick. C: the node\'s apply path under all interleavings of hand-over chunks, re-delivery, executor reports and crash+restart for every committed log of length 4 (thorough 5).',
+         'elections are explicit campaign events with pre-vote/check-quorum off (tick-driven timeouts are randomized inside the library); configuration changes not explored; the etcd raft library is trusted (its bootstrap code is repeated in a synchronous wrapper added through the overlay); a peer is assumed able to serve every block it has been handed', '5 C20'),
 })
 CHECKS.update({
  'C16': ('govmc', 'model_checking',
